@@ -41,8 +41,14 @@ How the model reads the tables:
   (patched by TS3) with the marker (`onError`); neither consults `checker.dry`, but in dry mode
   `statusOnError` is unreachable in the model's fragment (prompt guard `!e.Dry`; `runCommand` has
   no failing `execext.RunCommand` when dry).
-* keys: checksum `normalizeFilename(t.Name())`, timestamp `normalizeFilename(t.Task)`,
-  regexp `[^A-z0-9]` → `-`.
+* keys (fix N): checksum `stateFilename(t.Name())`, timestamp `stateFilename(t.Task)`; `stateFilename`
+  = `normalizeFilename` (regexp `[^A-z0-9]` → `-`) when that changes nothing, else normalised name +
+  `-` + `%016x` of `xxh3.HashString(name)` (`stateKey`).
+* `timestampIsUpToDate` (fix M): the marker is created (`!markerExists`) and moved to now only inside
+  the closure `touchMarker` (the `func` entry; its body starts from an empty guard chain: nothing
+  when `checker.dry`), which is called on the three exits where the task is going to run — nothing
+  to compare with, `anyFileNewerThan` failed, `!upToDate` — and never before `return upToDate` with
+  `upToDate` true.
 -/
 namespace TaskModel.Finger.Facts
 open TaskModel.Gen
@@ -121,6 +127,7 @@ theorem fingerOrder_checksumSum_ok : FingerOrder.checksumSum = [("Globs", ""),
   ("os.Open", "range sources"),
   ("io.CopyBuffer", "range sources"),
   ("h.Sum128", ""),
+  ("fmt.Sprintf", ""),
   ("return fmt.Sprintf(\"%x%x\", hash.Hi, hash.Lo), nil", "")] := by rfl
 
 /-- what is written into the hash before a file's content: `nameOf` = the slash path relative to
@@ -131,9 +138,9 @@ theorem fingerOrder_checksumName_ok :
     FingerOrder.checksumNameHashed = "strings.NewReader(filepath.ToSlash(name))" := by decide
 
 theorem fingerOrder_checksumPath_ok : FingerOrder.checksumPath = [("filepath.Join", ""),
-  ("normalizeFilename", ""),
+  ("stateFilename", ""),
   ("t.Name", ""),
-  ("return filepath.Join(checker.tempDir, \"checksum\", normalizeFilename(t.Name()))", "")] := by rfl
+  ("return filepath.Join(checker.tempDir, \"checksum\", stateFilename(t.Name()))", "")] := by rfl
 
 theorem fingerOrder_timestampIsUpToDate_ok : FingerOrder.timestampIsUpToDate = [("return false, nil", "len(t.Sources) == 0"),
   ("Globs", "!(len(t.Sources) == 0)"),
@@ -143,16 +150,23 @@ theorem fingerOrder_timestampIsUpToDate_ok : FingerOrder.timestampIsUpToDate = [
   ("def generatesExist = false", "!(len(t.Sources) == 0) && !(err != nil) && !(err != nil) && range t.Generates && !(g.Negate) && err != nil || len(files) == 0"),
   ("checker.timestampFilePath", "!(len(t.Sources) == 0)"),
   ("os.Stat", "!(len(t.Sources) == 0)"),
-  ("append", "!(len(t.Sources) == 0)"),
-  ("assign generates = append(generates, timestampFile)", "!(len(t.Sources) == 0)"),
-  ("os.MkdirAll", "!(len(t.Sources) == 0) && !checker.dry"),
-  ("os.Create", "!(len(t.Sources) == 0) && !checker.dry"),
-  ("time.Now", "!(len(t.Sources) == 0)"),
+  ("def markerExists := err == nil", "!(len(t.Sources) == 0) && !(err != nil) && !(err != nil)"),
+  ("append", "!(len(t.Sources) == 0) && markerExists"),
+  ("assign generates = append(generates, timestampFile)", "!(len(t.Sources) == 0) && markerExists"),
+  ("func", "!(len(t.Sources) == 0)"),
+  ("return nil", "checker.dry"),
+  ("os.MkdirAll", "!(checker.dry) && !markerExists"),
+  ("os.Create", "!(checker.dry) && !markerExists"),
+  ("time.Now", "!(checker.dry)"),
+  ("os.Chtimes", "!(checker.dry)"),
+  ("return os.Chtimes(timestampFile, now, now)", "!(checker.dry)"),
   ("getMaxTime", "!(len(t.Sources) == 0)"),
+  ("touchMarker", "!(len(t.Sources) == 0)"),
   ("anyFileNewerThan", "!(len(t.Sources) == 0)"),
   ("def shouldUpdate, err := anyFileNewerThan(sources, generateMaxTime)", "!(len(t.Sources) == 0) && !(err != nil) && !(err != nil) && !(err != nil || generateMaxTime.IsZero())"),
+  ("touchMarker", "!(len(t.Sources) == 0)"),
   ("def upToDate := !shouldUpdate && generatesExist", "!(len(t.Sources) == 0) && !(err != nil) && !(err != nil) && !(err != nil || generateMaxTime.IsZero()) && !(err != nil)"),
-  ("os.Chtimes", "!(len(t.Sources) == 0) && !checker.dry && !upToDate"),
+  ("touchMarker", "!(len(t.Sources) == 0) && !upToDate"),
   ("return upToDate, nil", "!(len(t.Sources) == 0)")] := by rfl
 
 theorem fingerOrder_timestampOnError_ok : FingerOrder.timestampOnError = [("return nil", "len(t.Sources) == 0"),
@@ -161,8 +175,18 @@ theorem fingerOrder_timestampOnError_ok : FingerOrder.timestampOnError = [("retu
   ("return nil", "!(len(t.Sources) == 0)")] := by rfl
 
 theorem fingerOrder_timestampPath_ok : FingerOrder.timestampPath = [("filepath.Join", ""),
-  ("normalizeFilename", ""),
-  ("return filepath.Join(checker.tempDir, \"timestamp\", normalizeFilename(t.Task))", "")] := by rfl
+  ("stateFilename", ""),
+  ("return filepath.Join(checker.tempDir, \"timestamp\", stateFilename(t.Task))", "")] := by rfl
+
+/-- `stateFilename` (fix N): the normalised name when normalisation leaves the name unchanged, else
+the normalised name, `-`, and 16 hex digits of xxh3 of the ORIGINAL name (`stateKey`; the model's
+tag is the name itself: the 64-bit hash is idealised as injective) -/
+theorem fingerOrder_stateFilename_ok : FingerOrder.stateFilename = [("normalizeFilename", ""),
+  ("def normalized := normalizeFilename(name)", ""),
+  ("return normalized", "normalized == name"),
+  ("fmt.Sprintf", "!(normalized == name)"),
+  ("xxh3.HashString", "!(normalized == name)"),
+  ("return fmt.Sprintf(\"%s-%016x\", normalized, xxh3.HashString(name))", "!(normalized == name)")] := by rfl
 
 theorem fingerOrder_isTaskUpToDate_ok : FingerOrder.isTaskUpToDate = [("NewStatusChecker", "config.statusChecker == nil"),
   ("NewSourcesChecker", "config.sourcesChecker == nil"),
@@ -196,19 +220,19 @@ theorem fingerOrder_swallowedErrReturns_ok : FingerOrder.swallowedErrReturns = [
   ("ChecksumChecker.IsUpToDate", "return false, nil | os.IsNotExist(err) | glob"),
   ("TimestampChecker.IsUpToDate", "return false, nil | err != nil | Globs"),
   ("TimestampChecker.IsUpToDate", "return false, nil | err != nil | Globs"),
-  ("TimestampChecker.IsUpToDate", "return false, nil | err != nil || generateMaxTime.IsZero() | getMaxTime"),
-  ("TimestampChecker.IsUpToDate", "return false, nil | err != nil | anyFileNewerThan"),
+  ("TimestampChecker.IsUpToDate", "return false, touchMarker() | err != nil || generateMaxTime.IsZero() | getMaxTime"),
+  ("TimestampChecker.IsUpToDate", "return false, touchMarker() | err != nil | anyFileNewerThan"),
   ("StatusChecker.IsUpToDate", "return false, nil | err != nil | execext.RunCommand")] := by rfl
 
 theorem fingerOrder_checksumRegexp_ok : FingerOrder.checksumRegexp = "[^A-z0-9]" := by rfl
 
 theorem fingerOrder_normalizeReplacement_ok : FingerOrder.normalizeReplacement = "-" := by rfl
 
-theorem fingerOrder_checksumKey_ok : FingerOrder.checksumKey = "t.Name()" := by rfl
+theorem fingerOrder_checksumKey_ok : FingerOrder.checksumKey = "stateFilename(t.Name())" := by rfl
 
 theorem fingerOrder_checksumDir_ok : FingerOrder.checksumDir = "checksum" := by rfl
 
-theorem fingerOrder_timestampKey_ok : FingerOrder.timestampKey = "t.Task" := by rfl
+theorem fingerOrder_timestampKey_ok : FingerOrder.timestampKey = "stateFilename(t.Task)" := by rfl
 
 theorem fingerOrder_timestampDir_ok : FingerOrder.timestampDir = "timestamp" := by rfl
 
